@@ -17,7 +17,10 @@ RULE = (
     "plus single genes with a reduced identifier set, on a genome with ambiguity letters, next to feature "
     "collections, and genes WITHOUT a locus tag (symbol+id / symbol only / gene id only / no identifier) alone and mixed "
     "with tagged genes (disjoint and overlapping). Every record x {prokaryotic,eukaryotic} x update_translations x {SORTED,LOCUS_TAG,HYBRID}. "
-    "Non-trivial = >=2 exons or minus strand or non-zero start frame or >=2 genes."
+    "Part 'iso': genes with two or three isoforms (coding / ncRNA / misc_RNA / tRNA; equal and different spans), alone with "
+    "and without a locus tag and next to a second gene. Kept order-bearing facts: the listing order of the parsed genes / "
+    "feature collections (by position) and the order of the parts of every multi-part location (5'->3' for a reader that "
+    "splices in the order given). Non-trivial = >=2 exons or minus strand or non-zero start frame or >=2 genes."
 )
 ASSUMPTIONS = [
     "independent reader = Bio.SeqIO (GenBank scanner of Biopython 1.88); it upper-cases the sequence, so the sequence is "
@@ -26,20 +29,20 @@ ASSUMPTIONS = [
     "vcf stub) is part of the trusted base",
     "documented feature types: gene; CDS only (prokaryotic coding); mRNA + CDS (eukaryotic coding); the RNA type of the "
     "biotype (non-coding); misc_feature + feat_interval (feature collection)",
-    "location parts are compared as SETS of (start,end,strand): the order of parts inside complement(join()) is not "
-    "part of the statement",
+    "location parts are matched to the source as SETS of (start,end,strand); in addition the parts must be LISTED so that "
+    "a reader that splices them in the order given obtains the 5'->3' sequence (known finding C12-minus-part-order)",
     "translation oracle: reading-frame model (vlib/model/frame.py) spliced by coordinates, table 11 for prokaryotic and "
     "the ATG-only default for eukaryotic flavour (writer documentation); a CDS whose codons contain an ambiguity letter "
     "is documented as 'cannot translate' -> no /translation",
     "a CDS without one complete codon is outside the statement (not generated)",
-    "one transcript per gene: several isoforms under one gene cannot be grouped from GenBank rows (parser documents that "
-    "extra transcripts are skipped)",
+    "genes with several isoforms are part of the world since round 5 (the statement says 'for every gene, transcript'); what "
+    "the parsers lose there is recorded as known findings, not excluded",
     "GenBank carries one symbol (/gene) per gene; transcript symbol == gene symbol in the world; for a gene without a "
     "symbol the writer documents that it substitutes the gene id, so the re-parsed symbol may be None or the id",
     "premise 'position-sorted with unique locus tags' of the mode-agreement clause is decided on the independent reader's "
-    "rows: gene-type rows in non-decreasing start order, rows sharing a start lie in one gene block (gene row + rows up "
-    "to the next gene row); every gene row carries a locus tag and no two gene rows share one. Under the premise all "
-    "three modes must agree with each other and with the source.",
+    "rows: gene-type rows in non-decreasing start order (plain reading; genes that START AT THE SAME POSITION, each followed "
+    "by its children, are still position-sorted - known finding C12-sorted-mode-same-start-genes); every gene row carries a "
+    "locus tag and no two gene rows share one. Under the premise all three modes must agree with each other and with the source.",
     "outside the premise a mode is compared with the source only where its documented strategy applies: SORTED on "
     "position-sorted files, LOCUS_TAG on files whose gene rows are uniquely tagged, HYBRID on either",
     "a gene without a locus tag of its own is written with the documented fallback (symbol, else gene id) as /locus_tag "
@@ -57,7 +60,7 @@ def world_description(tier):
     w = W.SINGLE[tier]
     return (f"single-gene records on every disjoint exon layout N={w['N']} k<={w['k']} (placements: "
             f"{'menu of 4' if tier == 'quick' else 'all'}); {len(W.multi_gene_records(tier))} multi-gene/identifier/genome/"
-            f"feature-collection records; x 2 flavours x 2 update_translations x 3 parser modes")
+            f"feature-collection records; {len(W.isoform_records(tier))} records with 2-3 isoforms per gene; x 2 flavours x 2 update_translations x 3 parser modes")
 
 
 def shards(tier, seed):
